@@ -31,7 +31,23 @@ def main() -> int:
 
         info = json.loads(Path(ns.replay).read_text())
         print(f"replaying {info.get('rule')} at {info.get('construct')}: re-running all rules of {ns.prop}")
-    return run_check(ns.prop.upper(), mod.check, tier, seed)
+    prop = ns.prop.upper()
+
+    def check_with_selftest(report, repo):
+        mod.check(report, repo)
+        if tier == "thorough" and not os.environ.get("USA_REPO_ROOT"):
+            # checker self-validation (DESIGN.md section 6) on scratch copies of the current tree:
+            # seeded violations must fire naming the construct, behaviour-preserving rewrites must stay silent
+            from usa.selftest.run import run_all
+
+            res = run_all(only={prop})
+            bad = [r for r in res if r[1] != "ok"]
+            report.note("selftest_variants", len(res))
+            report.note("selftest_failures", [f"{r[0]}: {r[1]} {r[2]}" for r in bad])
+            for r in res:
+                report.add("S-selftest", f"selftest::{r[0]}", True if r[1] == "ok" else None, ("checker self-validation variant behaves as expected" if r[1] == "ok" else f"checker self-validation failed ({r[1]}): {r[2]}"), r[1], "ok", nontrivial=False)
+
+    return run_check(prop, check_with_selftest, tier, seed)
 
 
 if __name__ == "__main__":
